@@ -6,6 +6,7 @@ the specification machine's limit are the same function of the depth, for all de
 -/
 import NeoModel.Generated.GoFuncs
 import NeoModel.Proofs.VmAcctDepth
+import NeoModel.Model.VmAcct.GasMachine
 namespace NeoModel.VmAcct
 open NeoModel.Generated.GoFuncs
 
@@ -62,5 +63,38 @@ theorem load_check_generated (s : St) (mode nargs : Nat) (r : Res) (h : exec (.l
       · rename_i hc
         simp only [frames_setW_length, ge_iff_le, decide_eq_true_eq, Nat.not_le] at hc
         exact hc
+
+end NeoModel.VmAcct
+
+namespace NeoModel.VmAcct
+open NeoModel.Generated.GoFuncs
+
+/-- `v.gasLimit` as the Go integer: negative = unlimited -/
+def limitInt : Option Nat → Int
+  | some l => l
+  | none => -1
+
+/-- generated = model, a SYSCALL handler's charge: `addPicoGasInternal` (vm.go:262, translated from the
+source on every run) for a context that is not whitelisted first performs the addition
+(`v.gasConsumed.Add`, the only effect) and then reports ErrGASLimitExceeded exactly when the model's
+`overLimit` holds for the NEW total — the leaf `GtUint64` read as `new total > limit` -/
+theorem addPicoGas_eq_generated (limit : Option Nat) (gas burn : Nat) (ctx : Int) (ctxNil : Bool) (l0 : Int) (g0 : Bool) :
+    vmAddPicoGasInternal ctx ctxNil false (limitInt limit) (decide ((gas + burn : Nat) > (limitInt limit).toNat)) l0 g0 =
+      (if overLimit limit (gas + burn) then "ErrGASLimitExceeded" else "ok", ["v.gasConsumed.Add"]) := by
+  unfold vmAddPicoGasInternal
+  cases limit with
+  | none => simp [limitInt, overLimit]
+  | some l =>
+    have h0 : ¬ ((l : Int) < 0) := by omega
+    by_cases h : gas + burn > l
+    · simp [limitInt, overLimit, h, h0]
+    · simp [limitInt, overLimit, h, h0]
+
+/-- … and a whitelisted context is not charged (no effect), the comparison uses the old total -/
+theorem addPicoGas_whitelisted (ctx : Int) (l1 : Int) (g1 : Bool) (l0 : Int) (g0 : Bool) :
+    (vmAddPicoGasInternal ctx false true l1 g1 l0 g0).2 = [] := by
+  unfold vmAddPicoGasInternal
+  simp
+  split <;> rfl
 
 end NeoModel.VmAcct
